@@ -3,6 +3,7 @@ package wire
 import (
 	"bufio"
 	"bytes"
+	"errors"
 	"fmt"
 	"io"
 	"math/rand"
@@ -83,6 +84,9 @@ func c17Handshake(r *eng.Run, retained *[]func() string) string {
 	}
 	if !t.Server.ok() || !t.Client.ok() {
 		return name + "=failed"
+	}
+	if t.Client.RestErr != nil || !bytes.Equal(t.Client.Rest, s.Trailing) {
+		r.FailProp("C11", "post_handshake_bytes_lost", "server sent %d bytes behind the 101, the client could read %d through buffer+conn (err %v, debug=%d)%s", len(s.Trailing), len(t.Client.Rest), t.Client.RestErr, c.Debug, firstDiff(t.Client.Rest, s.Trailing))
 	}
 	wantP, okP := expectedProtocol(c, s)
 	wantX, okX := expectedExts(c, s)
@@ -214,13 +218,30 @@ func c17ReadMessage(r *eng.Run, retained *[]func() string) string {
 				continue
 			}
 			variant := r.T.Int(sim.LAct, 2)
+			var herr error
 			switch {
 			case variant == 0:
-				wsutil.HandleControlMessage(replies, cfg.State(), all[i])
+				herr = wsutil.HandleControlMessage(replies, cfg.State(), all[i])
 			case side == ref.Client:
-				wsutil.HandleServerControlMessage(replies, all[i])
+				herr = wsutil.HandleServerControlMessage(replies, all[i])
 			default:
-				wsutil.HandleClientControlMessage(replies, all[i])
+				herr = wsutil.HandleClientControlMessage(replies, all[i])
+			}
+			var ce wsutil.ClosedError
+			if errors.As(herr, &ce) && len(all[i].Payload) > 2 {
+				// The application keeps the close report and reuses the
+				// message's payload bytes for something else.
+				reason := string(append([]byte(nil), ce.Reason...))
+				held := ce
+				scratch := append([]byte(nil), all[i].Payload...)
+				for k := range all[i].Payload {
+					all[i].Payload[k] = 0x5a
+				}
+				if held.Reason != reason {
+					r.Failf("result_aliases_caller_slice", "HandleControlMessage: the close reason it reported changed when the application reused the message's payload bytes")
+				}
+				copy(all[i].Payload, scratch)
+				r.Probe("close_report_kept_payload_reused")
 			}
 			if !bytes.Equal(all[i].Payload, model[i].Data) {
 				r.Failf("caller_slice_modified", "HandleControlMessage (side=%d) modified the payload of the message it was given (opcode %d, %d bytes)%s", side, all[i].OpCode, len(model[i].Data), firstDiff(all[i].Payload, model[i].Data))
@@ -302,8 +323,28 @@ func c17Close(r *eng.Run, retained *[]func() string) string {
 	payload := append([]byte{byte(code >> 8), byte(code)}, reason...)
 	want := string(reason)
 	dst := NewPipe(r, nil)
-	err := wsutil.ControlHandler{Src: bytes.NewReader(payload), Dst: dst, State: sideState(side), DisableSrcCiphering: true}.
-		Handle(ws.Header{Fin: true, OpCode: ws.OpClose, Length: int64(len(payload)), Masked: side == ref.Server})
+	var err error
+	if r.T.Chance(sim.LAct, 1, 3) {
+		// The close arrives as a message (ReadMessage) and is answered with
+		// HandleControlMessage; afterwards the application reuses the
+		// message's payload bytes while it keeps the error.
+		f := &ref.Frame{Fin: true, Op: ref.OpClose, Payload: payload}
+		if side == ref.Server {
+			f.Masked, f.Mask = true, drawMask(r)
+		}
+		msgs, rerr := wsutil.ReadMessage(NewPipe(r, ref.Encode([]*ref.Frame{f})), sideState(side), nil)
+		if rerr != nil || len(msgs) != 1 {
+			r.FailProp("C04", "missing_delivery", "ReadMessage on a single close frame: %d messages, %v", len(msgs), rerr)
+		}
+		err = wsutil.HandleControlMessage(dst, sideState(side), msgs[0])
+		for k := range msgs[0].Payload {
+			msgs[0].Payload[k] = 0x5a
+		}
+		r.Probe("close_report_kept_payload_reused")
+	} else {
+		err = wsutil.ControlHandler{Src: bytes.NewReader(payload), Dst: dst, State: sideState(side), DisableSrcCiphering: true}.
+			Handle(ws.Header{Fin: true, OpCode: ws.OpClose, Length: int64(len(payload)), Masked: side == ref.Server})
+	}
 	ce, ok := err.(wsutil.ClosedError)
 	if !ok {
 		r.FailProp("C08", "wrong_return", "HandleClose of a valid close returned %v", err)
